@@ -1032,6 +1032,37 @@ def run_files(case, ctx):
                 finally:
                     sys.modules.pop(tag + '_raw', None)
 
+    # -- the same with a bare file name in the working directory (as the default log_file='paramlog.py' is used)
+    if T and not facts['numpy_scalars'] and not facts['mixed_scalar_types']:
+        cwd = os.getcwd()
+        rel = tag + '_rel.py'
+        try:
+            os.chdir(d)
+            importlib.invalidate_caches()
+            ok, _ = call(ctx, 'C20.raw_writable', lambda: munge.write_raw_file(m, rel, **kw), facts)
+            ok1, first = call(ctx, 'C20.raw_readable', lambda: munge.read_raw_file(rel), info(os.path.join(d, rel)))
+            m2 = make_monitor('Monitor', k)
+            for rec in recs:
+                feed(m2, rec)
+            m2([7.0] * case['dim'], 7.0)
+            munge.write_raw_file(m2, rel, **kw)
+            importlib.invalidate_caches()
+            ok2, second = call(ctx, 'C20.raw_readable', lambda: munge.read_raw_file(rel), info(os.path.join(d, rel)))
+            if ok and ok1 and ok2:
+                ctx.label('reread:bare-name')
+                ctx.expect(len(first[0]) == T and len(second[1]) == T + 1 and len(second[0]) == T + 1, 'C20.reread',
+                           lambda: dict(records_in_file=T + 1, records_read=len(second[1]), first_read=len(first[0]),
+                                        got_is_first_content=(len(second[1]) == T and len(first[1]) == T),
+                                        note='bare file name, rewritten between two reads in one process'))
+                ok3, hist = call(ctx, 'C20.support_readable', lambda: munge.read_history(rel), info(os.path.join(d, rel)))
+                if ok3:
+                    ctx.expect(len(hist[1]) == T + 1, 'C20.reread',
+                               lambda: dict(records_in_file=T + 1, records_read=len(hist[1]), reader='read_history',
+                                            note='bare file name, rewritten between two reads in one process'))
+        finally:
+            os.chdir(cwd)
+            sys.modules.pop(tag + '_rel', None)
+
     # -- support file
     sup = os.path.join(d, tag + '_sup.py')
     ok, _ = call(ctx, 'C20.support_writable', lambda: munge.write_support_file(m, sup, **kw), facts)
